@@ -80,3 +80,37 @@ func TestC04Reg_MintWrapsTotal(t *testing.T) {
 		}
 	})
 }
+
+// TestC04Reg_SubsidyPercentWraps: lib.Uint64PercentageDiv computes (dividend*100)/divisor in uint64; for a dividend above
+// 2^64/100 (~1.8e17) the product wraps. GetSubsidizedCommittees uses it to decide which committees share the block
+// reward: a committee holding half of all stake (4e17 of 8e17) is computed at 3 % and gets no mint, so the total grows
+// by a different amount than the scheduled reward (floor division over fewer committees). Found by the thorough tier
+// through a 2^63 subsidy whose compounded rewards pushed a stake above 1.8e17.
+func TestC04Reg_SubsidyPercentWraps(t *testing.T) {
+	if got := lib.Uint64PercentageDiv(200_000_000_000_000_000, 400_000_000_000_000_000); got != 50 {
+		t.Errorf("Uint64PercentageDiv(2e17, 4e17) = %d, want 50", got)
+	}
+	vals := []cs.ValSpec{{Key: 0, OutputKey: -1, Stake: 1_000_000}, {Key: 1, OutputKey: -1, Stake: 1_000_000},
+		{Key: 2, OutputKey: -1, Stake: 400_000_000_000_000_000, Committees: []uint64{2}}, {Key: 3, OutputKey: -1, Stake: 400_000_000_000_000_000, Committees: []uint64{1}}}
+	g := cs.BuildGenesis(1, vals, nil, nil, nil)
+	c, err := cs.New(cs.Opts{Genesis: g})
+	if err != nil {
+		t.Fatal(err)
+	}
+	defer c.Close()
+	pre, _ := snap(c)
+	for h := uint64(1); h <= 2; h++ {
+		out, err := c.Block(cs.BlockSpec{Results: &lib.CertificateResult{RewardRecipients: &lib.RewardRecipients{}, SlashRecipients: &lib.SlashRecipients{}}})
+		if err != nil || out.Err != nil {
+			t.Fatalf("block %d: %v %v", h, err, out.Err)
+		}
+		post, _ := snap(c)
+		if _, err := delta(pre, post, c.Cfg, h, out, nil); err != nil {
+			t.Errorf("block %d: %v", h, err)
+		}
+		pre = post
+	}
+	if p := pre.fs.Pools[2]; p == nil || p.Amount == 0 {
+		t.Errorf("committee 2 holds 50 %% of all stake (threshold 33 %%) but its reward pool received no mint")
+	}
+}
